@@ -1,11 +1,14 @@
 """C03 - stream pipelines equal their sequential meaning; building is lazy; consumption is incremental."""
 import itertools
+import re as _re
 from collections import Counter, deque
 
 from hypothesis import strategies as st
 
 from vf.core import CaseInfo, Family, Inconclusive, Violation, run_sim, tape_strategy
 from vf.detsched import SimAbort
+
+_ADDR = _re.compile(r'0x[0-9a-fA-F]+')
 
 ASSUMPTIONS = [
     'the reference interpreter below (plain generators; buffer = identity, parmap = map, groupby = itertools.groupby) is the documented sequential meaning',
@@ -524,8 +527,10 @@ def run_case(spec):
             lookahead_after_peek = True
     if not has_shuffle:
         for pidx in sorted({p for p, _ in rt} | {p for p, _ in tr}):
-            a = [l for p, l in tr if p == pidx]
-            b = [l for p, l in rt if p == pidx]
+            # elements whose repr carries a memory address (e.g. the lazy itertools._grouper inside a groupby pair) print differently
+            # in two runs of the same program: addresses are masked on both sides
+            a = [_ADDR.sub('0x?', l) for p, l in tr if p == pidx]
+            b = [_ADDR.sub('0x?', l) for p, l in rt if p == pidx]
             if lookahead_after_peek or mode == 'take':
                 if a[: len(b)] != b:
                     raise Violation('peek_transcript', f'peek #{pidx} printed {a[:8]}, expected a transcript starting with {b[:8]}', signature=['peek'])
